@@ -42,7 +42,7 @@ func newMachine(P *Program, fn *ssa.Function, fc *FuncContract) *Machine {
 		implUsed: map[string]*types.Interface{}, globals: map[*ssa.Global]int64{},
 		trusted: map[string]bool{}, usedContracts: map[string]bool{},
 		loops: map[*ssa.Function]*loopInfo{}, loopHavoc: map[string]map[string]bool{},
-		baseInfo: map[int]*baseArrInfo{}, maxPaths: 5000, ctxParent: map[int]*Iface{},
+		baseInfo: map[int]*baseArrInfo{}, maxPaths: 5000, ctxParent: map[int]*Iface{}, runeSrc: map[int]*runeInfo{},
 	}
 	if fc != nil && fc.MaxPaths > 0 {
 		m.maxPaths = fc.MaxPaths
@@ -52,6 +52,10 @@ func newMachine(P *Program, fn *ssa.Function, fc *FuncContract) *Machine {
 }
 
 func verifyFunc(P *Program, name string) (rep *FuncReport) {
+	return verifyFuncMode(P, name, false)
+}
+
+func verifyFuncMode(P *Program, name string, refute bool) (rep *FuncReport) {
 	fc := P.Contracts.Funcs[name]
 	fn := P.Funcs[name]
 	rep = &FuncReport{Name: name, Loops: map[string]string{}}
@@ -60,6 +64,7 @@ func verifyFunc(P *Program, name string) (rep *FuncReport) {
 		return
 	}
 	m := newMachine(P, fn, fc)
+	m.refute = refute
 	rep.Mode = m.mode.String()
 	start := time.Now()
 	defer func() {
@@ -285,6 +290,11 @@ func funcsForProperty(cs *Contracts, prop string) []string {
 				use = true
 			}
 			for _, e := range l.Invariants {
+				if hasTag(e.Tags, prop) {
+					use = true
+				}
+			}
+			for _, e := range l.Iters {
 				if hasTag(e.Tags, prop) {
 					use = true
 				}
